@@ -162,6 +162,23 @@ pub fn replay_c19(v: &Value) -> Vec<Failure> {
         let before: Vec<Vec<u8>> = v.get("before").and_then(|x| x.as_array()).map(|x| x.iter().filter_map(|h| h.as_str().and_then(bits::unhex)).collect()).unwrap_or_default();
         return eval_order(&a, &before).into_iter().map(|(sig, msg)| Failure { sig, msg, replay: v.clone() }).collect();
     }
+    if v.get("kind").and_then(|k| k.as_str()) == Some("reader_nostd") {
+        let Some(b) = v.get("hex").and_then(|h| h.as_str()).and_then(bits::unhex) else { return vec![] };
+        let Ok(want) = dec_bytes(&b) else { return vec![] };
+        let max = v["max"].as_u64().unwrap_or(1);
+        let ints: Vec<String> = v["interrupts"].as_array().map(|a| a.iter().filter_map(|x| x.as_u64()).map(|x| x.to_string()).collect()).unwrap_or_default();
+        let mut worker = crate::configs::Worker::spawn();
+        let a = worker.ask(&[format!("RD {max} {} {}", if ints.is_empty() { "-".to_string() } else { ints.join(",") }, bits::hex(&b))]).pop().unwrap_or_default();
+        let got = if a == "Err" || a.is_empty() {
+            "Err".to_string()
+        } else {
+            let mut l = a.lines();
+            let crc = l.next().unwrap_or("").trim_start_matches("Ok ").to_string();
+            let dbg = l.next().unwrap_or("").trim_start_matches("DEBUG ").to_string();
+            format!("Ok {crc} {dbg}")
+        };
+        return if got != want { vec![Failure { sig: format!("C19/no_std/reader_differs/{}", refdec::class_of(&b)), msg: format!("slice decode gives `{}`, the alloc-only build's reader decode gives `{}`", short(&want), short(&got)), replay: v.clone() }] } else { vec![] };
+    }
     if v.get("kind").and_then(|k| k.as_str()) == Some("stream") {
         let frames: Vec<Vec<u8>> = v.get("frames").and_then(|x| x.as_array()).map(|a| a.iter().filter_map(|h| h.as_str().and_then(bits::unhex)).collect()).unwrap_or_default();
         let dm = v.get("default_max").and_then(|x| x.as_u64()).unwrap_or(64) as usize;
@@ -251,6 +268,11 @@ pub fn eval_stream(frames: &[Vec<u8>], frag: usize) -> Vec<(String, String)> {
     };
     for (i, f) in frames.iter().enumerate() {
         let want = dec_bytes(f).unwrap_or_else(|p| format!("panic {p}"));
+        if got[i] == want && want == "Err" {
+            // where a reader stands after a frame was refused is not specified: what follows
+            // in this capture cannot be judged
+            break;
+        }
         if got[i] != want {
             return vec![(format!("C19/stream_differs/{}", refdec::class_of(f).split('/').next().unwrap_or("")), format!("frame {i} of a stream of {} complete frames ({} bytes per read): alone it decodes to `{}`, in the stream to `{}` (the frame before it: {})", frames.len(), frag, short(&want), short(&got[i]), if i > 0 { bits::hex(&frames[i - 1]) } else { "none".into() }))];
         }
@@ -563,6 +585,56 @@ pub fn run_c19(ctx: &mut Ctx) -> ! {
                 st.fail(Failure { sig, msg, replay });
             }
         }
+    }
+    // ---- the same in the alloc-only (no_std) build of the decoder, whose I/O layer is another
+    // crate: every frame of the pool through the worker's scripted reader with fragment sizes
+    // 1, 2, 3, 5, 13, 14 and 64 and `Interrupted` at each of the first 14 read calls (and at pairs)
+    if std::env::var("VWORKER_BIN").is_ok() {
+        let mut worker = crate::configs::Worker::spawn();
+        let mut n = 0u64;
+        for (fi, b) in pool.iter().enumerate() {
+            let want = match dec_bytes(b) {
+                Ok(w) => w,
+                Err(_) => continue,
+            };
+            let mut scheds: Vec<(usize, Vec<usize>)> = vec![];
+            for max in [1usize, 2, 3, 5, 13, 14, 64] {
+                scheds.push((max, vec![]));
+            }
+            let max = [1usize, 2, 3, 5, 13, 14, 64][fi % 7];
+            for k in 0..14usize {
+                scheds.push((max, vec![k]));
+                scheds.push((max, vec![k, k + 1 + (fi + k) % 3]));
+            }
+            let reqs: Vec<String> = scheds.iter().map(|(m, ints)| format!("RD {m} {} {}", if ints.is_empty() { "-".to_string() } else { ints.iter().map(|x| x.to_string()).collect::<Vec<_>>().join(",") }, bits::hex(b))).collect();
+            let answers = worker.ask(&reqs);
+            for ((m, ints), a) in scheds.iter().zip(answers.iter()) {
+                n += 1;
+                // the worker's answer: "Err" or "Ok crc=..\nDEBUG <frame>\nDISPLAY .."
+                let got = if a == "Err" || a.is_empty() {
+                    "Err".to_string()
+                } else {
+                    let mut l = a.lines();
+                    let crc = l.next().unwrap_or("").trim_start_matches("Ok ").to_string();
+                    let dbg = l.next().unwrap_or("").trim_start_matches("DEBUG ").to_string();
+                    format!("Ok {crc} {dbg}")
+                };
+                if got != want {
+                    let class = refdec::class_of(b);
+                    let sig = format!("C19/no_std/reader_differs/{class}");
+                    if !st.failures.contains_key(&sig) {
+                        st.fail(Failure {
+                            sig,
+                            msg: format!("slice decode gives `{}`; the alloc-only build reading fragments of {m} byte(s) with Interrupted at read call(s) {ints:?} gives `{}` (frame {})", short(&want), short(&got), bits::hex(b)),
+                            replay: json!({"kind": "reader_nostd", "hex": bits::hex(b), "max": m, "interrupts": ints}),
+                        });
+                    }
+                }
+            }
+        }
+        st.evaluations += n;
+        st.nontrivial_enum += n;
+        st.class_n("alloc-only build: fragmented / interrupted reader", n);
     }
     st.notes.insert("frames_in_pool".into(), json!(pool.len()));
     st.exhaustive.push("for every frame of the pool and fragment sizes {64,1,2}: 1-3 consecutive Interrupted before every read call, and all pairs of injection points".into());
